@@ -15,7 +15,9 @@ RULE = ("generated programs (expressions, statement programs, inheritance chains
         "asyncio render_async, ''.join(generate()), collected generate_async; then with data "
         "asyncified where the documentation promises support (callables -> coroutine functions, "
         "iterables used at for-sites -> async generators); outputs must be equal or raise the same "
-        "class. distinct = program shapes x environment class")
+        "class; include/import sets additionally through a history (render, then "
+        "get_template(name, globals=...) and render again, twice) whose outcome sequence must be the "
+        "same in the sync and the async environment. distinct = program shapes x environment class")
 LEVEL_TEXT = "held on the generated programs only"
 ASSUMPTIONS = [
     "iterables are asyncified only where used exclusively as `for` iterables",
@@ -28,12 +30,12 @@ FLOORS = {
               "counters": {"entry_compares": 4000, "asyncified_compares": 500,
                            "cls_Native": 100, "cls_Sandboxed": 100, "cls_Immutable": 100,
                            "async_filter_programs": 100, "local_autoescape_programs": 100,
-                           "quirky_object_compares": 100}},
+                           "quirky_object_compares": 100, "template_globals_history_steps": 300}},
     "thorough": {"evaluations": 80000, "distinct": 8000,
                  "counters": {"entry_compares": 80000, "asyncified_compares": 10000,
                               "cls_Native": 2000, "cls_Sandboxed": 2000, "cls_Immutable": 2000,
                               "async_filter_programs": 2000, "local_autoescape_programs": 2000,
-                              "quirky_object_compares": 100}},
+                              "quirky_object_compares": 100, "template_globals_history_steps": 6000}},
 }
 
 
@@ -160,6 +162,43 @@ def check_case(ctx, case, clsname):
     ctx.dist([clsname, corpus.shape(case)])
 
 
+def check_globals_history(ctx, case, clsname):
+    """The same history in a sync and an async environment: the include/import set is rendered
+    (imported modules get cached), then the main template is fetched again WITH template
+    globals (get_template(name, globals=...)) and rendered with data that no longer shadows
+    them; imports without context must see the importer's globals the same way in both."""
+    cls = env_classes()[clsname]
+    seqs = {}
+    for mode in ("sync", "async"):
+        env = corpus.make_env(case, cls=cls, enable_async=(mode == "async"))
+        name = case["main"]
+        seq = []
+
+        def rend(t, d):
+            if mode == "async" and len(seq) % 2:
+                return util.capture(lambda: util.run_async(t.render_async(d)))
+            return util.capture(lambda: t.render(d))
+
+        d = corpus.realize_data(case, env)
+        seq.append(outcome(rend(env.get_template(name), d)))
+        for step, tg in enumerate(({"p": "TP1", "q": "TQ1"}, {"p": "TP2", "lv": "TL2"})):
+            d = {k: v for k, v in corpus.realize_data(case, env).items() if k not in tg}
+            seq.append(outcome(rend(env.get_template(name, globals=dict(tg)), d)))
+            # every other template of the set, too (they import each other)
+            for other in sorted(case["asts"]):
+                if other != name and other.startswith("m"):
+                    seq.append(outcome(rend(env.get_template(other, globals=dict(tg)), d)))
+        seqs[mode] = seq
+        ctx.ev(len(seq))
+    ctx.count("template_globals_history_steps", len(seqs["sync"]))
+    if seqs["sync"] != seqs["async"]:
+        i = next(i for i, (a, b) in enumerate(zip(seqs["sync"], seqs["async"], strict=False)) if a != b)
+        ctx.violation(f"parity-history:template-globals:{clsname}",
+                      f"step {i} of render / get_template(name, globals=...) history: sync {seqs['sync'][i]!r} vs "
+                      f"async {seqs['async'][i]!r} | sources={corpus.sources(case)} data={case['data']}",
+                      {"case": case, "cls": clsname, "history": True})
+
+
 class DotDict(dict):
     """The common recipe: unknown attributes answer None instead of raising."""
     __getattr__ = dict.get
@@ -257,6 +296,8 @@ def run(ctx):
         if clsname == "Native" and case["kind"] in ("incimp",):
             clsname = "Environment"   # native module/str concat of includes is C34 territory
         check_case(ctx, case, clsname)
+        if case["kind"] == "incimp":
+            check_globals_history(ctx, case, clsname)
         if i < 2:
             ctx.sample({"sources": corpus.sources(case), "cls": clsname})
         i += 1
@@ -265,4 +306,6 @@ def run(ctx):
 def replay(ctx, case):
     if "quirky" in case:
         return check_quirky(ctx)
+    if case.get("history"):
+        return check_globals_history(ctx, case["case"], case["cls"])
     check_case(ctx, case["case"], case["cls"])
